@@ -370,19 +370,32 @@ impl AsRef<str> for Pat<'_> {
     }
 }
 
+/// Hides `size_hint()` (and every other specialisable method) of the wrapped iterator.
+struct Opaque<I>(I);
+impl<I: Iterator> Iterator for Opaque<I> {
+    type Item = I::Item;
+    fn next(&mut self) -> Option<I::Item> {
+        self.0.next()
+    }
+}
+
 fn build_t<V: SimVal>(
     spec: &Spec,
     order: &[usize],
     hook: fn(),
+    opaque: bool,
 ) -> Result<Box<dyn DynPma>, String> {
     let identity = order.iter().enumerate().all(|(i, &j)| i == j);
-    let pats = order.iter().map(|&i| {
+    // `opaque`: the same input reaches the builder through an iterator that hides the exact
+    // size_hint of the slice iterator
+    let base = order.iter().map(|&i| {
         hook();
         Pat {
             bytes: &spec.patterns[i],
             hook,
         }
     });
+    let pats: Box<dyn Iterator<Item = Pat>> = if opaque { Box::new(Opaque(base)) } else { Box::new(base) };
     match spec.variant {
         Variant::Bytewise => {
             let b = DoubleArrayAhoCorasickBuilder::new()
@@ -432,20 +445,24 @@ fn build_t<V: SimVal>(
 /// meaningful with `Entry::WithValues`). `hook` runs before every pattern is produced and
 /// on every `as_ref()` of a pattern.
 pub fn build_ordered(spec: &Spec, order: &[usize], hook: fn()) -> Result<Box<dyn DynPma>, String> {
+    build_ordered_opt(spec, order, hook, false)
+}
+
+pub fn build_ordered_opt(spec: &Spec, order: &[usize], hook: fn(), opaque: bool) -> Result<Box<dyn DynPma>, String> {
     match spec.vtype {
-        VType::U8 => build_t::<u8>(spec, order, hook),
-        VType::U16 => build_t::<u16>(spec, order, hook),
-        VType::U32 => build_t::<u32>(spec, order, hook),
-        VType::U64 => build_t::<u64>(spec, order, hook),
-        VType::U128 => build_t::<u128>(spec, order, hook),
-        VType::I32 => build_t::<i32>(spec, order, hook),
-        VType::I128 => build_t::<i128>(spec, order, hook),
-        VType::Usize => build_t::<usize>(spec, order, hook),
-        VType::Empty => build_t::<Empty>(spec, order, hook),
-        VType::I8 => build_t::<i8>(spec, order, hook),
-        VType::I16 => build_t::<i16>(spec, order, hook),
-        VType::I64 => build_t::<i64>(spec, order, hook),
-        VType::Isize => build_t::<isize>(spec, order, hook),
+        VType::U8 => build_t::<u8>(spec, order, hook, opaque),
+        VType::U16 => build_t::<u16>(spec, order, hook, opaque),
+        VType::U32 => build_t::<u32>(spec, order, hook, opaque),
+        VType::U64 => build_t::<u64>(spec, order, hook, opaque),
+        VType::U128 => build_t::<u128>(spec, order, hook, opaque),
+        VType::I32 => build_t::<i32>(spec, order, hook, opaque),
+        VType::I128 => build_t::<i128>(spec, order, hook, opaque),
+        VType::Usize => build_t::<usize>(spec, order, hook, opaque),
+        VType::Empty => build_t::<Empty>(spec, order, hook, opaque),
+        VType::I8 => build_t::<i8>(spec, order, hook, opaque),
+        VType::I16 => build_t::<i16>(spec, order, hook, opaque),
+        VType::I64 => build_t::<i64>(spec, order, hook, opaque),
+        VType::Isize => build_t::<isize>(spec, order, hook, opaque),
     }
 }
 
